@@ -259,6 +259,7 @@ def main(tier, seed):
     counts = {"iso": 0, "whit": 0, "point": 0}
     worst = {"model": 0.0, "point": 0.0}
     wpoint = 0
+    wreported = {}
     wclasses = {}
     for (kind, key, sig, smp), ans in zip(meta, answers):
         counts[kind] += 1
@@ -278,8 +279,10 @@ def main(tier, seed):
         elif kind == "whit":
             run.count(key, n=len(smp["loading"]))
             wpoint += key[0] == "whit-point"
-            for c in ans["cls"]:
+            for c, nload in zip(ans["cls"], smp["loading"]):
                 wclasses[c] = wclasses.get(c, 0) + 1
+                if nload in smp["returned_loading"]:
+                    wreported[c] = wreported.get(c, 0) + 1
             if not ans["input_ok"]:
                 raise MachineryError("Whittaker input data inconsistent with the spec's Langmuir root")
             if not ans["subseq"]:
@@ -295,7 +298,7 @@ def main(tier, seed):
             run.sample({"kind": kind, **{k: v for k, v in smp.items() if k != "all"}})
     run.add("traces_validated_against_impl", len(queries))
     run.set(worst_relative_deviation_model=worst["model"], worst_relative_deviation_point=worst["point"], whittaker_point_isotherm_runs=wpoint,
-            isosteric_scenarios_run=counts["iso"], isosteric_scenarios_in_spec=len(iso_scen), whittaker_runs=counts["whit"], whittaker_loading_classes=wclasses,
+            isosteric_scenarios_run=counts["iso"], isosteric_scenarios_in_spec=len(iso_scen), whittaker_runs=counts["whit"], whittaker_loading_classes=wclasses, whittaker_reported_and_judged_by_class=wreported,
             initial_point_cases=counts["point"], exhaustive=bool(thorough),
             rule="isosteric: dH {5,10,20,40,60} kJ/mol x all 26 subsets (2-5) of {200,250,298,350,400} K x order (asc, desc, rotated) x generator (Langmuir, Toth, DS-Langmuir) x "
                  "(model isotherm | 300-point isotherm) x 3 unit configurations, enumerated by spec/Enthalpy.tla ("
